@@ -247,6 +247,22 @@ impl<'a> CommitBuilder<'a> {
             }
         };
 
+        // Every commit (delete, update, config change, ...) goes through here: refuse tables
+        // whose writer flags we do not know, as the insert path already does.
+        if let Some(dataset) = dest.dataset() {
+            if !lance_table::feature_flags::can_write_dataset(dataset.manifest.writer_feature_flags) {
+                return Err(Error::NotSupported {
+                    source: format!(
+                        "This dataset cannot be written by this version of Lance. \
+                         Please upgrade Lance to write to this dataset.\n Flags: {}",
+                        dataset.manifest.writer_feature_flags
+                    )
+                    .into(),
+                    location: location!(),
+                });
+            }
+        }
+
         if dest.dataset().is_none()
             && !matches!(
                 transaction.operation,
